@@ -6,7 +6,7 @@ import importlib
 
 
 def load_contracts():
-    for m in ["der"]:
+    for m in ["der", "util", "ellipticcurve"]:
         importlib.import_module("contracts." + m)
     import spec.der
 
@@ -37,7 +37,7 @@ def verify_functions(quals, z3_ms=10000, cvc5_s=0, verbose=True):
         if r["verdict"] == "unsat":
             a["ok"] += 1
         else:
-            a["bad"].append((o.path, o.line, r["verdict"], o.note))
+            a["bad"].append((o.name, o.path, o.line, r["verdict"], o.note[:300]))
     if verbose:
         for q in quals:
             print("%s: paths=%d obligations=%d limits=%s" % (q, info[q][0], info[q][2], info[q][1]))
